@@ -41,6 +41,7 @@ var modelMap = map[string]string{
 	"internal/stringslite.Clone":           "CloneString",
 	"strings.Clone":                        "CloneString",
 	"internal/oserror.init":                "",
+	"html.UnescapeString":                  "HTMLUnescape",
 }
 
 func noop(it *Interp, fn *ssa.Function, args []Value) Value { return Value{} }
@@ -73,6 +74,14 @@ var nativeIntrinsics = map[string]intrinsic{
 			bs[i] = sl.c[i].v
 		}
 		return mkStrBytes(bs)
+	},
+	"github.com/open2b/scriggo/internal/vmodels.Unsupported": func(it *Interp, fn *ssa.Function, args []Value) Value {
+		msg := "model"
+		if s, ok := args[0].Ref.(*Str); ok && s.Concrete() {
+			msg = s.s
+		}
+		it.unsupported(msg)
+		return Value{}
 	},
 	"runtime.Gosched":     noop,
 	"runtime.KeepAlive":   noop,
